@@ -10,6 +10,8 @@ Case (JSON-able):
   regs : [[port, pmask, chan, cmask, cb], ...]   initial port/header registrations, in order
   alls : [cb, ...]                               initial `packet_received` callbacks, in order
   pkts : [header byte, ...]
+  reads: optional outcome of every receive_packet call: 'p' next packet, 'n' None (timeout), 'e' raises OSError,
+         'x' raises Exception (default: one 'p' per packet)
   plens: optional [payload length, ...] parallel to pkts (default 2 bytes each)
   ext  : optional {point: [op, ...]} operations performed by ANOTHER THREAD while the dispatcher waits at a hand-over point:
          'S:n' before packet n is fetched, 'A0:n' after Caller.call copied its list, 'A:n:k' after the k-th packet_received
@@ -32,22 +34,45 @@ class CbRaise(Exception):
     """what a scripted callback raises"""
 
 
+class ReadFault(OSError):
+    """what a failing driver read raises ('e'); 'x' raises a plain Exception subclass"""
+
+
+class ReadFaultX(Exception):
+    pass
+
+
 class ScriptedLink:
     needs_resending = False
 
-    def __init__(self, pkts, on_next=None):
+    def __init__(self, pkts, on_next=None, reads=None):
         self.pkts = list(pkts)
         self.i = 0
         self.on_next = on_next
+        # outcome of every call of receive_packet: 'p' next packet, 'n' None (timeout), 'e'/'x' the read raises
+        self.reads = list(reads) if reads is not None else ['p'] * len(self.pkts)
+        self.r = 0
+        self.last_raised = False
 
     def receive_packet(self, wait=0):
+        self.last_raised = False
+        while self.r < len(self.reads):
+            what = self.reads[self.r]
+            self.r += 1
+            if what == 'n':
+                return None
+            if what in ('e', 'x'):
+                self.last_raised = True
+                raise (ReadFault('scripted read failure') if what == 'e' else ReadFaultX('scripted read failure'))
+            if self.i < len(self.pkts):
+                if self.on_next:
+                    self.on_next(self.i)
+                pk = self.pkts[self.i]
+                self.i += 1
+                return pk
         if self.on_next:
-            self.on_next(self.i)
-        if self.i >= len(self.pkts):
-            raise _Stop()
-        pk = self.pkts[self.i]
-        self.i += 1
-        return pk
+            self.on_next(len(self.pkts))
+        raise _Stop()
 
     def send_packet(self, pk):
         pass
@@ -236,7 +261,7 @@ class Run:
             self.obs.packet_boundary(i)
 
     def go(self):
-        link = ScriptedLink(self.pkts, on_next=self._next)
+        link = ScriptedLink(self.pkts, on_next=self._next, reads=self.case.get('reads'))
         self.cf.link = link
         try:
             self.cf.incoming.run()
@@ -246,6 +271,9 @@ class Run:
             self.died = type(e).__name__
         self.cf.link = None
         self.consumed = link.i
+        # the loop was ended by an exception of the link's receive_packet (not by a callback)
+        self.read_fault_death = self.died is not None and link.last_raised
+        self.reads_done = link.r
         return self
 
 
@@ -253,4 +281,4 @@ def run_case(case, observer=None):
     r = Run(case, observer).go()
     return {'log': [list(x) for x in r.log], 'alive': r.died is None and not r.diverged and not r.ext_blocked,
             'died': r.died, 'diverged': r.diverged, 'consumed': r.consumed, 'fired': list(r.fired),
-            'ext_blocked': r.ext_blocked}
+            'ext_blocked': r.ext_blocked, 'read_fault_death': r.read_fault_death, 'reads_done': r.reads_done}
